@@ -321,3 +321,114 @@ pub fn shrink_session(start: &Session, fails: &mut dyn FnMut(&Session) -> bool, 
     }
     (cur, b.evals)
 }
+
+// ---------------------------------------------------------------------------------------------
+// CLI cases
+// ---------------------------------------------------------------------------------------------
+
+use crate::cli::{CliCase, InState, OutState};
+
+pub fn shrink_cli(start: &CliCase, fails: &mut dyn FnMut(&CliCase) -> bool, max_evals: usize) -> (CliCase, usize) {
+    let mut cur = start.clone();
+    let mut evals = 0usize;
+    let mut attempt = |cur: &mut CliCase, cand: CliCase, evals: &mut usize| -> bool {
+        if *evals >= max_evals || cand == *cur {
+            return false;
+        }
+        *evals += 1;
+        if fails(&cand) {
+            *cur = cand;
+            true
+        } else {
+            false
+        }
+    };
+    loop {
+        let mut progress = false;
+        // fewer faults
+        let mut i = cur.plan.len();
+        while i > 0 {
+            i -= 1;
+            let mut c = cur.clone();
+            c.plan.remove(i);
+            progress |= attempt(&mut cur, c, &mut evals);
+        }
+        if cur.twin_entropy.is_some() {
+            let mut c = cur.clone();
+            c.twin_entropy = None;
+            progress |= attempt(&mut cur, c, &mut evals);
+        }
+        // default options
+        if !cur.opt_args.is_empty() {
+            let mut c = cur.clone();
+            c.opt_args.clear();
+            c.serde_xml_rs = false;
+            c.by_name = false;
+            c.derive = None;
+            progress |= attempt(&mut cur, c, &mut evals);
+        }
+        // simpler world
+        for (a, b) in [("in.xml", "out.rs")] {
+            if cur.input_name != a || (cur.output_name != b && !matches!(cur.output, OutState::InMissingDir)) {
+                let mut c = cur.clone();
+                c.input_name = a.into();
+                if !matches!(c.output, OutState::InMissingDir) {
+                    c.output_name = b.into();
+                }
+                progress |= attempt(&mut cur, c, &mut evals);
+            }
+        }
+        if !matches!(cur.output, OutState::Stdout) {
+            let mut c = cur.clone();
+            c.output = OutState::Stdout;
+            c.output_name = "out.rs".into();
+            progress |= attempt(&mut cur, c, &mut evals);
+        }
+        if let OutState::Existing(b) = &cur.output {
+            if b.len() > 1 {
+                let mut c = cur.clone();
+                c.output = OutState::Existing(b"x".to_vec());
+                if !attempt(&mut cur, c, &mut evals) {
+                    let mut c = cur.clone();
+                    c.output = OutState::New;
+                    progress |= attempt(&mut cur, c, &mut evals);
+                } else {
+                    progress = true;
+                }
+            }
+        }
+        // smaller input: remove chunks of decreasing size
+        if let InState::Present(b) = &cur.input {
+            let mut data = b.clone();
+            let mut chunk = (data.len() / 2).max(1);
+            while chunk >= 1 && evals < max_evals {
+                let mut i = 0;
+                let mut any = false;
+                while i < data.len() && evals < max_evals {
+                    let e = (i + chunk).min(data.len());
+                    let mut d2 = data.clone();
+                    d2.drain(i..e);
+                    let mut c = cur.clone();
+                    c.input = InState::Present(d2.clone());
+                    if attempt(&mut cur, c, &mut evals) {
+                        data = d2;
+                        any = true;
+                        progress = true;
+                    } else {
+                        i += chunk;
+                    }
+                }
+                if chunk == 1 && !any {
+                    break;
+                }
+                if !any {
+                    chunk /= 2;
+                }
+            }
+        }
+        if !progress || evals >= max_evals {
+            break;
+        }
+    }
+    (cur, evals)
+}
